@@ -159,7 +159,7 @@ Section gen_facts.
   Lemma bnl_rule5 f ctx lv s t st :
     overlap_check e ctx (b_tab st) s t = false ->
     first_rule e (has_method (b_tab st)) (bc_conf ctx) s t = Some 5 ->
-    build_no_lookup (S f) ctx lv s t st = (let! a := assign_no_lookup f ctx lv false s t in ret (POfAssign t a)) st.
+    build_no_lookup (S f) ctx lv s t st = (let! _ := note_ty t in let! a := assign_no_lookup f ctx lv false s t in ret (POfAssign t a)) st.
   Proof. intros O R. cbn [Gen.build_no_lookup]. rewrite O, R. reflexivity. Qed.
   Lemma anl_rule5 f ctx lv u s t st :
     overlap_check e ctx (b_tab st) s t = false ->
@@ -187,14 +187,16 @@ Section gen_facts.
     cc_UseZeroValueOnPointerInconsistency (bc_conf ctx) = true -> cc_UseUnderlyingTypeMethods (bc_conf ctx) = false ->
     (forall id, t <> TNamed id) -> f_Pointer e t = false ->
     build_no_lookup (S (S f)) ctx lv (TPtr s) t st = GOk (p, st') ->
-    exists q, p = POfAssign t (ASrcPtr q) /\ exists st0, build f ctx LV_DEREF s t st = GOk (q, st0).
+    exists q, p = POfAssign t (ASrcPtr q) /\ exists st0 st1, b_tab st0 = b_tab st /\ build f ctx LV_DEREF s t st0 = GOk (q, st1).
   Proof.
     intros F U NN NP H.
     assert (O : overlap_check e ctx (b_tab st) (TPtr s) t = false) by (apply overlap_needs_structs; reflexivity).
     pose proof (ptr_to_value_with_flag e (has_method (b_tab st)) (bc_conf ctx) s t F U NN NP) as R.
-    rewrite (bnl_rule5 _ _ _ _ _ _ O R) in H. unfold mbind, ret in H.
-    rewrite (anl_rule5 _ _ _ _ _ _ _ O R) in H. unfold mbind, ret in H. cbn [f_PointerInner under] in H.
-    destruct (build f ctx LV_DEREF s t st) as [[q st1]| | |]; try discriminate. inversion H; subst. eauto.
+    rewrite (bnl_rule5 _ _ _ _ _ _ O R) in H. unfold mbind, ret, note_ty in H.
+    match type of H with context [assign_no_lookup (S f) ctx lv false (TPtr s) t ?X] => set (st0 := X) in * end.
+    assert (T0 : b_tab st0 = b_tab st) by reflexivity.
+    rewrite (anl_rule5 _ _ _ _ _ _ st0) in H by (rewrite T0; assumption). unfold mbind, ret in H. cbn [f_PointerInner under] in H.
+    destruct (build f ctx LV_DEREF s t st0) as [[q st1]| | |] eqn:B; try discriminate. inversion H; subst. eauto 6.
   Qed.
 End gen_facts.
 
